@@ -3,6 +3,7 @@ import HL.Driver.AstJson
 import HL.Model.Dec
 import HL.Model.Num
 import HL.Model.Balance
+import HL.Model.HoverText
 import HL.Spec.Number
 import HL.Spec.BalanceSpec
 open Lean
@@ -257,6 +258,59 @@ def c20Balances (j : Json) : Json :=
   Json.mkObj [("model", model), ("in_domain", true), ("spec_ok", ok),
     ("why", if faithful then "account balances differ from the exact sums" else "parsed postings differ from the journal written")]
 
+/-- first-occurrence dedup. -/
+def dedupBy {α} (key : α → String) (l : List α) : List α :=
+  (l.foldl (fun (acc : List String × List α) x =>
+    if acc.1.contains (key x) then acc else (key x :: acc.1, acc.2 ++ [x])) ([], [])).2
+
+def splitOn (sep : UInt8) (s : Bytes) : List Bytes :=
+  (s.foldr (fun c (acc : List Bytes) => if c == sep then [] :: acc else
+    match acc with | [] => [[c]] | h :: t => (c :: h) :: t) [[]])
+
+/-- figures printed in an account hover: balance lines `- N C` and the postings count. -/
+def accountFigures (text : Bytes) : List (Bytes × Option Rat) × Option Nat :=
+  let lines := splitOn 10 text
+  let bals := lines.filterMap fun l => match l with
+    | 45 :: 32 :: rest =>
+      let num := rest.takeWhile (· != 32)
+      let com := (rest.dropWhile (· != 32)).drop 1
+      some (com, (Dec.ofString num).map Dec.toRat)
+    | _ => none
+  let pre := bs "**Postings:** "
+  let cnt := lines.findSome? fun l => if l.take pre.length == pre then Dec.parseNat (l.drop pre.length) else none
+  (bals, cnt)
+
+def c20Hover (j : Json) : Json :=
+  let txs := arrOf txOf (jget j "txs")
+  let truth := arrOf (arrOf tpostingOf) (jget j "truth")
+  let b := Balance.accountBalances txs
+  let ps := txs.flatMap (·.postings)
+  let accounts := dedupBy hex (ps.map (·.account.name))
+  let payees := dedupBy hex ((txs.map HoverText.payeeOrDescription).filter (· ≠ []))
+  let tagsOf (tx : Transaction) : List Tag := tx.comments.flatMap (·.tags) ++ tx.postings.flatMap (·.tags)
+  let tags := dedupBy (fun (t : Tag) => hex t.name ++ ":" ++ hex t.value) (txs.flatMap tagsOf)
+  let model := Json.mkObj [
+    ("accounts", Json.arr (accounts.toArray.map fun a => Json.arr #[hx a, hx (HoverText.accountHover a b txs)])),
+    ("payees", Json.arr (payees.toArray.map fun p => Json.arr #[hx p, hx (HoverText.payeeHover p txs)])),
+    ("amounts", Json.arr ((ps.filterMap fun p => p.amount.map fun a => hx (HoverText.amountHover a p.cost)).toArray)),
+    ("tags", Json.arr (tags.toArray.map fun t => Json.arr #[hx t.name, hx t.value,
+        hx (HoverText.tagValueHover t.name t.value txs), toJson (Balance.countTagUsage t.name txs)]))]
+  -- oracle: the figures printed in the implementation's account hovers against the ground truth
+  let t := truth.map truthTx
+  let faithful := txs.map image == t
+  let impl := jget j "impl"
+  let accOk := (jarr impl "accounts").toList.all fun e => match e with
+    | .arr a =>
+      let name := unhx a[0]!
+      let (bals, cnt) := accountFigures (unhx a[1]!)
+      let expected := (expectedBalances t).filter (fun x => x.1 == name) |>.map fun x => (x.2.1, some x.2.2)
+      cnt == some (postingCount t name) && sortKV bals == sortKV expected
+    | _ => false
+  let accAll := (jarr impl "accounts").size == (dedupBy hex ((t.flatMap id).map (·.account))).length
+  let ok := faithful && accOk && accAll
+  Json.mkObj [("model", model), ("in_domain", true), ("spec_ok", ok),
+    ("why", if faithful then "figures in an account hover differ from the exact aggregates" else "parsed postings differ from the journal written")]
+
 def handle (op : String) (j : Json) : Option Json :=
   match op with
   | "dec.parse" => some (decParse j)
@@ -266,6 +320,7 @@ def handle (op : String) (j : Json) : Option Json :=
   | "c02.check" => some (c02Check j)
   | "c02.diag" => some (c02Diag j)
   | "c20.balances" => some (c20Balances j)
+  | "c20.hover" => some (c20Hover j)
   | _ => none
 
 end HL.Driver.C02
